@@ -196,6 +196,7 @@ class Gen:
             declare=False,  # bare annotations / undefined globals (C16)
             closure=None,
             simple_exprs=False,
+            future_annotations=None,
         )
         o.update(opts or {})
         self.o = o
@@ -467,6 +468,14 @@ class Gen:
             self.anns.setdefault(ctx["fn"], {}).setdefault(name, []).append(sorted(set(tags)))
         else:
             ann = "int"
+            r = self.rnd.random()
+            if r < 0.2 and self.ok("ann_undefined_name"):
+                # annotations of local variables are never evaluated when the function runs
+                self.feat("ann_undefined_name")
+                ann = "OnlyForTypeChecker"
+            elif r < 0.3 and self.ok("ann_side_effect"):
+                self.feat("ann_side_effect")
+                ann = f"__s__({self.nsite()}, int)"
         em.both(f"{name}: {ann} = {p}", f"{name}: {ann} = {t}")
         self.bind_hook(em, ctx["fn"], name, tags=sorted(set(tags)) if tags else None)
         ctx["bound"].add(name)
@@ -1093,6 +1102,11 @@ class Gen:
                 tags = self.tagset()
                 ann = ": " + self.ann_text(tags)
                 self.anns.setdefault(self.cur_fn, {}).setdefault(nm, []).append(sorted(set(tags)))
+            elif self.o.get("future_annotations") and rnd.random() < 0.4:
+                # with `from __future__ import annotations` a parameter annotation may name things
+                # that only exist for a type checker
+                self.feat("param_ann_undefined_name")
+                ann = ": OnlyForTypeChecker"
             return f"{nm}{ann}" + (f" = {default}" if default is not None else "")
         if self.ok("posonly") and rnd.random() < 0.2 and len(pos) >= 2:
             self.feat("posonly")
@@ -1254,11 +1268,13 @@ def build_module(rnd, opts=None):
     is_gen = opts.get("generator")
     if is_gen is None:
         is_gen = rnd.random() < 0.3
+    if opts.get("future_annotations") is None:
+        opts["future_annotations"] = g.o["future_annotations"] = rnd.random() < 0.25
     use_closure = opts.get("closure")
     if use_closure is None:
         use_closure = rnd.random() < 0.2
     closure_write = None
-    lines = ["from ptera import tag" if opts.get("tags") or opts.get("declare") else "", PRELUDE]
+    lines = ["from __future__ import annotations" if opts["future_annotations"] else "", "from ptera import tag" if opts.get("tags") or opts.get("declare") else "", PRELUDE]
     # an instrumentable helper called from f through the expression generator is `hlp` (not
     # instrumented); a second generated function g is called explicitly by name.
     if use_closure:
